@@ -19,7 +19,7 @@ namespace Galaxy.Policy
 namespace G
 export Galaxy.Generated.Policy (namePrefix policyChainPrefix podChainPrefix ingressChain egressChain
   fmtSelSet fmtIngressIpSet fmtIngressNetSet fmtEgressIpSet fmtEgressNetSet defaultIngress defaultEgress
-  ipBlockExceptOption rulePortsDefaultProto createIPSetKeepsRekeyedEntries)
+  ipBlockExceptOption rulePortsDefaultProto createIPSetKeepsRekeyedEntries multiportChunk)
 end G
 
 /-! ## Cluster and policy values -/
@@ -271,11 +271,25 @@ def compileSets (c : Cluster) (ps : List NetPol) : List IpSet := ps.flatMap (pol
 
 def comment (name ns : String) : String := name ++ "_" ++ ns
 
-/-- the (up to three) rules writePolicyChainRules emits for one source table and one destination table -/
-def tplRules (cm : String) (s d : SetName) (tcp udp : List Nat) : List PRule :=
-  (if tcp ≠ [] then [⟨[.comment cm, .proto .tcp, .setSrc s, .setDst d, .dports tcp], .accept⟩] else []) ++
-  (if udp ≠ [] then [⟨[.comment cm, .proto .udp, .setSrc s, .setDst d, .dports udp], .accept⟩] else []) ++
+/-- `for i := 0; i < len(l); i += n { … l[i:min(i+n, len(l))] … }` (fuel = length of the list) -/
+def chunksOf (n : Nat) : Nat → List Nat → List (List Nat)
+  | 0, _ => []
+  | fuel + 1, l => if l = [] then [] else l.take n :: chunksOf n fuel (l.drop n)
+
+/-- the port lists of the rules emitted for one protocol: `chunk = 0` is the source before 8f04d5f (all ports in ONE
+    rule, nothing for an empty list), `chunk = n > 0` the chunk loop (at most n ports per rule) -/
+def portChunks (chunk : Nat) (ports : List Nat) : List (List Nat) :=
+  if chunk = 0 then (if ports ≠ [] then [ports] else []) else chunksOf chunk ports.length ports
+
+/-- the rules writePolicyChainRules emits for one source table and one destination table -/
+def tplRulesWith (chunk : Nat) (cm : String) (s d : SetName) (tcp udp : List Nat) : List PRule :=
+  (portChunks chunk tcp).map (fun ps => ⟨[.comment cm, .proto .tcp, .setSrc s, .setDst d, .dports ps], .accept⟩) ++
+  (portChunks chunk udp).map (fun ps => ⟨[.comment cm, .proto .udp, .setSrc s, .setDst d, .dports ps], .accept⟩) ++
   (if tcp = [] ∧ udp = [] then [⟨[.comment cm, .protoAll, .setSrc s, .setDst d], .accept⟩] else [])
+
+/-- … as the current source has it (regenerated chunk size) -/
+def tplRules (cm : String) (s d : SetName) (tcp udp : List Nat) : List PRule :=
+  tplRulesWith G.multiportChunk cm s d tcp udp
 
 /-- writePolicyChainRules -/
 def chainRules (cm : String) (srcs dsts : List SetName) (tcp udp : List Nat) : List PRule :=
@@ -539,7 +553,7 @@ def flowOK (c : Cluster) (ps : List NetPol) (node : String) (f : Flow) : Bool :=
   (f.hook != Hook.output || !srcEgressIsolatedHere c ps node f)
 
 def inFragment (c : Cluster) (ps : List NetPol) (node : String) (f : Flow) : Bool :=
-  wfCluster c ps && ps.all (polOK c) && oneDirection c ps node && flowOK c ps node f && !overLimit ps
+  wfCluster c ps && ps.all (polOK c) && oneDirection c ps node && flowOK c ps node f
 
 /-! ## Rendering (canonical dump form, Appendix B) and parsing of dump lines -/
 
